@@ -32,9 +32,10 @@ ASSUMPTIONS = ["reset and stop durations are at least one clock cycle (R >= 1, S
 
 def make(R, S, por, freq=1e6):
     def contract(c):
+        # R, S are the *configured* durations in cycles (ceil(length * f)), computed here and not read back from the unit:
+        # a controller that derives other counts from its parameters must fail the clauses, not the contract's set-up
         d = PHYResetController(clock_frequency=freq, reset_length=(R - 0.5) / freq, stop_length=(S - 0.5) / freq,
                                power_on_reset=por)
-        assert (d.reset_length_cycles, d.stop_length_cycles) == (R, S), (d.reset_length_cycles, d.stop_length_cycles)
         body(c, d, R, S, por)
     return contract
 
@@ -42,7 +43,7 @@ def make(R, S, por, freq=1e6):
 def make_default(por):
     def contract(c):
         d = PHYResetController(power_on_reset=por)           # 60 MHz, 2 us / 2 us -> 120 / 120 cycles
-        body(c, d, d.reset_length_cycles, d.stop_length_cycles, por)
+        body(c, d, 120, 120, por)
     return contract
 
 
